@@ -46,6 +46,22 @@ def specs(tier, seed):
                                       "what": "hostile"}],
                             "label": "%s/%s%d/%d" % (qt, kind, ord_, rep), "hs_limit_ms": 200000})
                 k += 1
+    # fragment chains: one downstream packet that never ends, each fragment as large as the record type carries
+    # (MX / SRV answers decode to tens of kilobytes: the reassembly buffer must clamp the SUM, not each fragment)
+    sizes = {"NULL": [4094, 1200], "PRIVATE": [4094], "TXT": [1100, 4000], "CNAME": [140], "A": [140],
+             "MX": [-228, -150, -40], "SRV": [-225, -120]}        # negative: that many maximal exchange names
+    for rep in range(1 if tier == "quick" else 6):
+        for qt in common.QTYPES:
+            for size in sizes[qt]:
+                for (kind, ord_) in (("ping", 1), ("data", 0)):
+                    de = rng.choice(["T", "V", "S", "U"])
+                    out.append({"seed": seed * 100000 + k, "sess": {"qtype": qt, "downenc": de, "lazy": rng.choice([0, 1])},
+                                "pkts": PKTS, "dur_ms": 9000, "hs_limit_ms": 200000,
+                                "plan": [dict({"kind": kind, "k": ord_, "n": rng.choice([3, 16, 20]), "what": "chain", "downenc": de},
+                                              **({"records": -size, "short": rng.choice([0, 0, 1, 7])} if size < 0 else
+                                                 {"size": size - rng.choice([0, 0, 1, 7])}))],
+                                "label": "%s/chain%d/%s%d/%d" % (qt, size, kind, ord_, rep)})
+                    k += 1
     return out
 
 
